@@ -15,6 +15,15 @@
 (*   dlen, lcp, slen   bytes that reached the sink, length of their common *)
 (*         prefix with String(), Len(String())                             *)
 (*   sw    Write calls the sink saw (pieces)                               *)
+(*   h     position of the call in a history of back-to-back calls made by *)
+(*         one goroutine (1: the failing call, 2: the call after it; 0:    *)
+(*         main loop, where every call also follows other calls)           *)
+(*   bc    number of Write calls of the very first WriteTo of the process  *)
+(*         on this module (to a never-failing writer)                      *)
+(* Every row is judged as a FIRST call: the required outcome depends on    *)
+(* the module and the writer only, so a call that inherits state from an   *)
+(* earlier one (Writer.tla, FreshPerCall = FALSE) breaks FirstError /      *)
+(* NoFailEqualsString / SameWritesAsFirstCall in the later row.            *)
 (*                                                                         *)
 (* For every row the log is folded with Writer!FwStep / Writer!ObsStep     *)
 (* (the very functions of the fmtWriter state machine, as written) and the *)
@@ -35,8 +44,8 @@
 EXTENDS Integers, Sequences, TLC, Json
 
 W == INSTANCE Writer WITH MaxChunks <- 0, MaxSize <- 0, LatchError <- TRUE, CountAccepted <- TRUE,
-       KeepFirstError <- FALSE, Modes <- {}, Pieces <- {}, GivenFile <- "",
-       stage <- "cfg", w <- 0, chunks <- <<>>, fw <- 0, obs <- 0, delivered <- <<>>
+       KeepFirstError <- FALSE, Modes <- {}, Pieces <- {}, GivenFile <- "", MaxCalls <- 1, LaterModes <- {}, FreshPerCall <- TRUE,
+       stage <- "cfg", w <- 0, chunks <- <<>>, fw <- 0, obs <- 0, delivered <- <<>>, sess <- 0
 
 Trace == ndJsonDeserialize("writer_rec.ndjson")
 N == Len(Trace)
@@ -75,7 +84,10 @@ RowOK(r) ==
                  <<"FirstError", W!FirstErrorP(s)>>,
                  <<"NoWriteAfterFailure", W!NoWriteAfterFailureP(s)>>,
                  <<"PrefixDelivered", honest => W!PrefixDeliveredP(s)>>,
-                 <<"NoFailEqualsString", honest => W!NoFailEqualsStringP(s)>> >>
+                 <<"NoFailEqualsString", honest => W!NoFailEqualsStringP(s)>>,
+                 \* a call is a function of the module and the writer, not of what was called before: a
+                 \* never-failing writer sees the very Writes the first WriteTo of the process made
+                 <<"SameWritesAsFirstCall", r.mode = "never" => Len(r.off) = r.bc>> >>
       broken == {laws[i][1] : i \in {i \in 1..Len(laws) : ~laws[i][2]}}     \* all of them, not only the first
       predicted == r.n = x.fw.n /\ r.e = x.fw.err
   IN /\ (broken = {} \/ Bad("law", broken, r))
